@@ -44,6 +44,8 @@ func round6(c *Ctx) {
 		r6HugeUnsigned(c)
 		r8SmallFloats(c)
 		r9ListsThatWereNeverAllocated(c)
+		r12NumeralsThatStartWithADot(c)
+		r12TextWithBytesThatAreNotUTF8(c)
 	case "C06":
 		r12WideUnsignedAcrossCarriers(c)
 	case "C04":
@@ -59,6 +61,8 @@ func round6(c *Ctx) {
 		r10ElementsThatAreAllZero(c)
 		r11ListsOfMixedObjects(c)
 	case "C19":
+		r12KeysWhoseOtherCaseHasAnotherLength(c)
+		r12NumbersWhoseCoefficientIsAMultipleOfTwoToThe64(c)
 		r6NilThenSetStructPointers(c)
 		r6AllZeroStructs(c)
 		r6PaddedZeroNumerals(c)
@@ -871,6 +875,59 @@ func r12WideUnsignedAcrossCarriers(c *Ctx) {
 		names = append(names, "typed-list-of-uint")
 		for _, q := range []string{"$.n", "$.n.Add(1)", "$.n.Greater($.five)", "$.n.Less(5)", "$.xs.Sum()", "$.xs.Maximum()", "$.xs.First()", "$.n.Equal($.xs.First())", "$.n.Divide(2)", "$.n.IsEmpty()", "$.five.Less($.n)"} {
 			c.sameAcross(q, names, docs, "round12/wide-unsigned-across-carriers")
+		}
+	}
+}
+
+// numbers kept as text that starts with the decimal point (".5", ".05e1", "-.5", "+.5") or ends with it ("5."): the number they spell,
+// in every relation, like the same number in any other storage
+func r12NumeralsThatStartWithADot(c *Ctx) {
+	for _, pr := range [][2]string{{".5", "0.5"}, {".05e1", "0.5"}, {"-.5", "-0.5"}, {"+.5", "0.5"}, {"5.", "5"}, {".5e1", "5"}, {"-.25e0", "-0.25"}, {".0", "0"}} {
+		d := decimal.RequireFromString(pr[1])
+		f, _ := d.Float64()
+		names := []string{"decimal", "text-with-a-dot-first", "float64", "plain-text"}
+		docs := []*TV{tvMap("str", [][2]any{kv("n", tvDec(d)), kv("one", tvF64(1))}), tvMap("str", [][2]any{kv("n", tvStr(pr[0])), kv("one", tvF64(1))}),
+			tvMap("str", [][2]any{kv("n", tvF64(f)), kv("one", tvF64(1))}), tvMap("str", [][2]any{kv("n", tvStr(pr[1])), kv("one", tvF64(1))})}
+		for _, q := range []string{"$.n.Equal(" + pr[1] + ")", "$.n.NotEqual(" + pr[1] + ")", "$.n.Less(1)", "$.n.Greater(0)", "$.n.LessOrEqual(" + pr[1] + ")", "$.n.GreaterOrEqual(" + pr[1] + ")", "$.n.Less($.one)",
+			"$.one.Greater($.n)", "$.n.AnyOf(7," + pr[1] + ")", "$.n.Equal(\"" + pr[0] + "\")", "$.n.Equal(\"" + pr[1] + "\")", "$.one.Equal($.n)", "$.n.Less(-1)"} {
+			c.sameAcross(q, names, docs, "round12/numerals-that-start-with-a-dot")
+		}
+	}
+}
+
+// text that holds bytes which are not UTF-8 (Latin-1 text, a lone 0xff) next to characters that are written with an escape in a
+// literal: a text equals itself, and two texts that differ in such a byte are different
+func r12TextWithBytesThatAreNotUTF8(c *Ctx) {
+	texts := []string{"\xff\n", "caf\xe9\tau lait", "caf\xe8\tau lait", "\xe9\"q\"", "a\xc3", "\xff\xfe\r\n", "na\xefve\n"}
+	lit := func(s string) string {
+		r := strings.NewReplacer("\\", "\\\\", "\"", "\\\"", "\n", "\\n", "\t", "\\t", "\r", "\\r")
+		return "\"" + r.Replace(s) + "\""
+	}
+	for _, a := range texts {
+		for _, b := range texts {
+			d := tvMap("str", [][2]any{kv("s", tvStr(a)), kv("o", tvStr(b))})
+			x := "b:0"
+			if a == b {
+				x = "b:1"
+			}
+			c.Do(Case{Q: "$.s.Equal(" + lit(b) + ")", D: d, XK: "logical", X: x, Cls: "round12/text-with-bytes-that-are-not-utf8", InDomain: true})
+			c.Do(Case{Q: "$.s.Equal($.o)", D: d, XK: "logical", X: x, Cls: "round12/text-with-bytes-that-are-not-utf8", InDomain: true})
+			c.Do(Case{Q: "$.s.AnyOf(\"zz\"," + lit(b) + ")", D: d, XK: "logical", X: x, Cls: "round12/text-with-bytes-that-are-not-utf8", InDomain: true})
+		}
+	}
+}
+
+// numbers whose decimal coefficient is a multiple of 2^64 (their low 64 bits are all zero): not zero, so neither empty nor equal to 0
+func r12NumbersWhoseCoefficientIsAMultipleOfTwoToThe64(c *Ctx) {
+	preds := []string{"IsNull()", "IsNotNull()", "IsEmpty()", "IsNotEmpty()", "IsNullOrEmpty()", "IsNotNullOrEmpty()", "Equal(0)", "Greater(0)"}
+	for _, v := range []string{"18446744073709551616", "1.8446744073709551616", "-36893488147419103232", "55340232221128654848", "184467440737095516160", "0.000018446744073709551616"} {
+		docs := []*TV{tvMap("str", [][2]any{kv("v", tvDec(decimal.RequireFromString(v)))}), tvMap("str", [][2]any{kv("v", tvStr(v))}), tvStruct([][3]any{{"V", 1, tvDec(decimal.RequireFromString(v))}}),
+			tvMap("str", [][2]any{kv("v", tvPtr(tvDec(decimal.RequireFromString(v))))})}
+		for _, d := range docs {
+			for _, pr := range preds {
+				c.Do(Case{Q: "$.v." + pr, D: d, Cls: "round12/coefficient-a-multiple-of-2^64", InDomain: true})
+				c.Do(Case{Q: "$.v?." + pr, D: d, Cls: "round12/coefficient-a-multiple-of-2^64", InDomain: true})
+			}
 		}
 	}
 }
